@@ -214,6 +214,9 @@ func init() {
 			for l := 0; l <= 5; l++ {
 				beforeOpts = append(beforeOpts, c04Attr{0x0006, l})
 			}
+			// XOR-MAPPED-ADDRESS under its registered type and under the legacy code point the decoder also accepts:
+			// the attribute header is covered by the MAC as it is on the wire
+			beforeOpts = append(beforeOpts, c04Attr{0x0020, 8}, c04Attr{0x8020, 8})
 			for _, t := range []uint16{0x8022, 0x8028, 0x0008, 0x7FFF} {
 				for l := 0; l <= 5; l++ {
 					afterOpts = append(afterOpts, c04Attr{t, l})
